@@ -290,3 +290,46 @@ func hReplaceNS(s, from, to string) string {
 	}
 	return out
 }
+
+// H06pfx: a prefixed grouping name is read with the prefix bindings of the file that holds the
+// uses statement: module m and its submodule s bind the same prefix p to two different modules,
+// each of which defines a grouping g. Which module is bound where, the written order of include
+// and import, and whether the use sits directly in a container or inside another grouping are
+// symbolic.
+func H06pfx() {
+	mx, my := "x", "y"
+	if symBool() {
+		mx, my = "y", "x"
+	}
+	head := `include s; import ` + mx + ` { prefix p; } `
+	if symBool() {
+		head = `import ` + mx + ` { prefix p; } include s; `
+	}
+	use := `container c { uses p:g; } `
+	nested := symBool()
+	if nested {
+		use = `grouping outer { uses p:g; } container c { uses outer; } `
+	}
+	m := `module m { namespace "urn:m"; prefix m; ` + head + use + `}`
+	s := `submodule s { belongs-to m { prefix m; } import ` + my + ` { prefix p; } container sc { uses p:g; } }`
+	x := `module x { namespace "urn:x"; prefix x; grouping g { leaf fromx { type string; } } }`
+	y := `module y { namespace "urn:y"; prefix y; grouping g { leaf fromy { type int8; } } }`
+	note(m + s)
+	ms, lerrs := hLoad(m, s, x, y)
+	check(len(lerrs) == 0, "the modules parse")
+	errs := ms.Process()
+	check(len(errs) == 0, "the modules process")
+	if len(errs) > 0 {
+		return
+	}
+	reach("processed")
+	hWF(ms)
+	em := ToEntry(ms.Modules["m"])
+	c, sc := em.Dir["c"], em.Dir["sc"]
+	check(c != nil && sc != nil, "using nodes exist")
+	if c == nil || sc == nil {
+		return
+	}
+	check(len(c.Dir) == 1 && c.Dir["from"+mx] != nil, "a prefixed grouping name in the module is read with the module's own import of that prefix")
+	check(len(sc.Dir) == 1 && sc.Dir["from"+my] != nil, "a prefixed grouping name in the submodule is read with the submodule's own import of that prefix")
+}
